@@ -114,6 +114,8 @@ def _fe_runs(tier):
 
 def _fsg_runs(tier):
     eps = [dict(h='mc_fsg', label='fsg-eps4-shard%d' % i, args=['--family', 'eps4', '--shard', '%d/16' % i]) for i in range(16)]
+    # vocabularies that outgrow their first allocations: 5..70 real words x 0..30 alternates x fillers added before/after
+    eps.append(dict(h='mc_fsg', label='fsg-bigvocab', args=['--family', 'bigvocab']))
     if tier == 'quick':
         return [dict(h='mc_fsg', label='fsg-3states-3arcs-shard%d' % i, args=['--states', '3', '--arcs', '3', '--shard', '%d/16' % i])
                 for i in range(16)] + eps
